@@ -9,6 +9,7 @@ from typing import Union
 
 import qcore
 
+from . import _verif_trace
 from .safe import all_of_type, is_instance_of_typing_name
 from .value import (
     AnySource,
@@ -114,6 +115,8 @@ def solve(
             options = bound.constraints
         else:
             assert False, f"unrecognized bound {bound}"
+        if _verif_trace.is_enabled():
+            _verif_trace.emit("SolveStep", bound=bound, bottom=bottom, top=top)
 
     if bottom is BOTTOM:
         if top is TOP:
